@@ -21,6 +21,27 @@ CHECKS = {
   design_ref="DESIGN.md §4 C04",
   technique="model-based stateful proptest (op vectors) + chain-derived ground-truth oracle",
   note=TRUST + "; Chain::process_block/validate_tx and proof::rewind are ground truth; domain restrictions of the statement encoded in the generator (no cancelled tx mined, no forks, min_conf>=1, no TTL)"),
+ "C05": dict(
+  engine="world",
+  category="exploration",
+  text="Metamorphic three-snapshot check (before the transaction / before cancel / after cancel) over generated wallets with other pending transactions and a target transaction of 12 kinds/stages, cancel addressed by log id or slate id, plus negative cases; the whole raw LMDB content and stored files are diffed so that any collateral change is seen. Exploration over sampled scenarios.",
+  design_ref="DESIGN.md §4 C05",
+  technique="model-based scenarios (proptest) + metamorphic snapshot diff oracle",
+  note=TRUST + "; only status and value of rolled-back outputs are compared (statement's wording)"),
+ "C03": dict(
+  engine="world",
+  category="exploration",
+  text="Stateful search over histories in which protocol steps of several concurrent slates are issued in any order, repeated and duplicated; after every step the inputs of every live outgoing transaction (read from the stored transactions) must be pairwise disjoint and recorded Locked/Spent, no slate has two live entries, and a repeated step is refused or changes nothing (raw DB diff). Exploration over sampled histories.",
+  design_ref="DESIGN.md §4 C03",
+  technique="model-based stateful proptest + history invariants over wallet snapshots",
+  note=TRUST + "; overlapping coin selection before any reservation is allowed by the statement"),
+ "C19": dict(
+  engine="pbt",
+  category="exploration",
+  text="Differential check of Owner::retrieve_txs against a reference filter written from the field documentation, with a validity predicate (subset, exact length, monotone keys, valid top-k under ties) over synthetic logs in a real LMDB backend; every reading the documentation leaves open is accepted. ~49k queries per quick run.",
+  design_ref="DESIGN.md §4 C19",
+  technique="proptest generators + reference-model differential / validity predicate",
+  note=TRUST + "; undocumented meanings (amount orientation, cancelled types, missing confirmation time) accepted under any reading"),
 }
 
 hooks_commits = subprocess.run(["git", "-C", "/repo", "log", "--format=%h %s"], stdout=subprocess.PIPE, text=True).stdout.splitlines()
